@@ -443,6 +443,27 @@ def clause_d(ctx: Context, idx) -> None:
                 terms_n[pname] = ("idx", rc.BRA if arg.id == row_name else rc.KET)
         terms_n = {k: v for k, v in terms_n.items() if v is not None}
         terms_j = {p: ("idx", rc.BRA if p == "row" else rc.KET) for p in fn_j.params() if p in ("row", "col")}
+        # the matrices of the recurrence are called A, b, density_matrix, d in the reader; a parameter that is not called so takes the name
+        # of the (so-called) variable the driver passes for it
+        import copy as _copy
+        import dataclasses as _dc
+        canon = ("A", "b", "density_matrix", "d")
+        ren = {}
+        for pname, arg in zip(fn_n.params(), call.args):
+            if pname not in canon and isinstance(arg, ast.Name) and arg.id in canon and arg.id not in fn_n.params():
+                ren[pname] = arg.id
+        for k_ in call.keywords:
+            if k_.arg and k_.arg not in canon and isinstance(k_.value, ast.Name) and k_.value.id in canon and k_.value.id not in fn_n.params():
+                ren[k_.arg] = k_.value.id
+        if ren:
+            node2 = _copy.deepcopy(fn_n.node)
+            for x_ in ast.walk(node2):
+                if isinstance(x_, ast.Name) and x_.id in ren:
+                    x_.id = ren[x_.id]
+                if isinstance(x_, ast.arg) and x_.arg in ren:
+                    x_.arg = ren[x_.arg]
+            fn_n = _dc.replace(fn_n, node=node2)
+            terms_n = {ren.get(k_, k_): v_ for k_, v_ in terms_n.items()}
         try:
             nf_n = rc.NumpyReader(fn_n, terms_n).run()
             nf_j = rc.JaxReader(fn_j, terms_j).run()
